@@ -44,7 +44,8 @@ comp(comp(x)) = x for every letter but u, '.' and '-' are fixed, '[' and ']' are
 		ID: "TB-2", Props: []string{"C09"}, Min: 4,
 		Doc: `the IUPAC compatibility tables are the IUPAC table: in obialign._iupac (LCS kernel) and _FourBitsBaseCode/_FourBitsBaseDecode the four bases have
 distinct single bits, the code of every ambiguity letter is the union of the bits of its bases (u = t), non-IUPAC letters have code 0, decode(code(x)) = x, and
-_samenuc — evaluated for all 256x256 byte pairs from its AST — equals 'codes intersect' after case folding, is symmetric, and is plain equality outside letters.`,
+_samenuc — evaluated for all 256x256 byte pairs from its AST — equals 'same letter, or codes intersect' after case folding, is reflexive and symmetric, and is plain equality outside
+letters (the oracle first asked 'codes intersect' alone, under which a letter that is no IUPAC code does not match itself: corrected after the second bug hunt, see DESIGN.md §8ter).`,
 		Run: runTB2,
 	})
 	register(&Rule{
@@ -228,7 +229,8 @@ func runTB2(c *Ctx, s *Sink) {
 			fa, fb2 := fold(a), fold(b)
 			var want bool
 			if fa >= 'a' && fa <= 'z' && fb2 >= 'a' && fb2 <= 'z' {
-				want = iu[fa-'a']&iu[fb2-'a'] != 0
+				// a letter matches itself even when it is no IUPAC code (code 0: x, i, …)
+				want = fa == fb2 || iu[fa-'a']&iu[fb2-'a'] != 0
 			} else {
 				want = fa == fb2
 			}
@@ -239,9 +241,9 @@ func runTB2(c *Ctx, s *Sink) {
 		}
 	}
 	if len(bad) > 0 {
-		s.Fail(nil, key, fd.Pos(), "symbol comparison is not 'IUPAC codes intersect after case folding' (hence not symmetric or not case-insensitive): "+strings.Join(bad, "; "))
+		s.Fail(nil, key, fd.Pos(), "symbol comparison is not 'same letter, or IUPAC codes intersect, after case folding' (hence not reflexive, not symmetric or not case-insensitive): "+strings.Join(bad, "; "))
 	} else {
-		s.Pass(nil, key, fd.Pos(), "65536 byte pairs: equals 'codes intersect' after case folding (a symmetric relation), plain equality outside letters")
+		s.Pass(nil, key, fd.Pos(), "65536 byte pairs: equals 'same letter or codes intersect' after case folding (reflexive and symmetric), plain equality outside letters")
 	}
 }
 
